@@ -220,7 +220,8 @@ example :
 open Vsb.Dedup in
 /-- **history_restore_exact — C01 as stated.**  Start from an empty storage and apply any history of operations:
 `vsb backup` runs on arbitrary trees (each appending to the newest group or opening a new one — any rotation policy —
-with any subset of the earlier manifests of the group unreadable during the run) and deletions of arbitrary whole
+with any subset of the earlier manifests of the group unreadable during the run, and with any padding after the contents
+it stores in its archive: files that shrank while they were archived, C15) and deletions of arbitrary whole
 groups.  Assume of each run what the property assumes (`OpSoundL`): the walk delivers a well-formed tree, and a file
 whose (device, inode, mtime) equal those recorded for its path in the group's previous backup has the recorded
 content.  Then for every group `g` of the resulting storage and every backup `lt = g[t]` in it, restoring that backup
@@ -279,7 +280,7 @@ def exEs0 : List (Entry Nat) := [.dir "d" {}, .file "d/a" {} [1, 2], .file "d/b"
 def exEs1 : List (Entry Nat) := [.dir "d" {}, .file "d/a" {} [1, 2], .file "d/c" {} [3], .file "d/e" {} [], .file "d/n" {} [9, 9]]
 def exFp0 : String → Nat := fun _ => 1
 def exFp1 : String → Nat := fun p => if p == "d/a" then 1 else 2
-def exOps : List (LOp Nat Nat) := [.run "b0" exEs0 exFp0 [] true, .run "b1" exEs1 exFp1 [true] false]
+def exOps : List (LOp Nat Nat) := [.run "b0" exEs0 exFp0 [] true (fun _ => []), .run "b1" exEs1 exFp1 [true] false (fun _ => [0, 0])]
 
 
 theorem exSound0 : RunSound (id : List Nat → List Nat) ([] : List (LBackupF Nat Nat)) [] exEs0 exFp0 := by
@@ -287,10 +288,10 @@ theorem exSound0 : RunSound (id : List Nat → List Nat) ([] : List (LBackupF Na
   intro p m d _ l r hl
   simp [view, loadLast] at hl
 
-theorem exLast1 : loadLast (view ([runL (id : List Nat → List Nat) [] [] "b0" exEs0 exFp0].map (recsD id)) [true]) =
+theorem exLast1 : loadLast (view ([runL (id : List Nat → List Nat) [] [] "b0" exEs0 exFp0 (fun _ => [])].map (recsD id)) [true]) =
     some [⟨true, [1, 2], 1, 2, "/d/a"⟩, ⟨true, [3], 1, 1, "/d/b"⟩] := by decide
 
-theorem exSound1 : RunSound (id : List Nat → List Nat) [runL id [] [] "b0" exEs0 exFp0] [true] exEs1 exFp1 := by
+theorem exSound1 : RunSound (id : List Nat → List Nat) [runL id [] [] "b0" exEs0 exFp0 (fun _ => [])] [true] exEs1 exFp1 := by
   refine ⟨wfCheck_sound _ (by decide), ?_⟩
   intro p m d hin l r hl hr hfp
   rw [exLast1] at hl
